@@ -59,6 +59,14 @@ def prelude():
     st_.append(("decl", "ct", ("list", "int"), ("list", [I(10), I(20), I(30)]), ("const",)))
     # operands that FAIL when they are evaluated (unwrapping nil, reading an element that is not there) and their harmless twins:
     # behind a `&&` / `||` whose left side decides the result they must not be evaluated at all
+    # BOOLEAN state read bare (a variable, a list element, an object field) next to a logging call that rewrites it: the left
+    # operand of && / || keeps the value it had when it was evaluated, whatever the right operand does to its cell
+    st_.append(("decl", "bv", None, ("lit", "bool", False), ()))
+    st_.append(("decl", "bl", ("list", "bool"), ("list", [("lit", "bool", False), ("lit", "bool", True)]), ()))
+    st_.append(("class", "Pb", [("f", "bool")], [("f", "bool")], [("setf", V("self"), "f", V("f"))], []))
+    st_.append(("decl", "pb", None, ("new", "Pb", [("lit", "bool", False)]), ()))
+    st_.append(("decl", "MB", None, ("fn", [("k", "int"), ("to", "bool"), ("answer", "bool")], "bool",
+                [("print", ("bin", "+", S("mb"), V("k"))), ("decl", "bv", None, V("to"), ("modify",)), ("seti", V("bl"), I(0), V("to")), ("setf", V("pb"), "f", V("to")), ("return", V("answer"))]), ()))
     st_.append(("decl", "ob", ("opt", "bool"), ("nil",), ()))
     st_.append(("decl", "obt", ("opt", "bool"), ("lit", "bool", True), ()))
     st_.append(("decl", "eb", ("list", "bool"), ("list", []), ()))
@@ -134,6 +142,14 @@ def leaf(c, t, nest):
             g.label("recursive-logger")
             return ("call", V("R"), [I(g.int(1, 3)), c.key(), I(g.int(-3, 4))])
         return ("call", V("Li"), [c.key(), I(g.int(-3, 4))])
+    if t == "bool" and c.state and g.chance(30):
+        if g.chance(50):
+            c.reads += 1
+            g.label("bool-state-read")
+            return g.choice([V("bv"), ("index", V("bl"), I(0)), ("field", V("pb"), "f"), ("index", V("bl"), I(0)), ("field", V("pb"), "f")])
+        c.mutators += 1
+        g.label("bool-state-mutate")
+        return ("call", V("MB"), [c.key(), ("lit", "bool", g.chance(50)), ("lit", "bool", g.chance(50))])
     if t == "bool" and g.chance(22):
         # a guard in front of an operand that cannot be evaluated when the guard says so (no call in it: nothing to log, only to fail)
         absent = g.chance(65)
@@ -214,7 +230,18 @@ def gen(c, t, depth, nest=0):
         lhs = ("call", V("Lo"), [c.key(), I(g.int(-3, 4)) if present else ("nil",)])
         return ("or", lhs, gen(c, "int", depth - 1, nest + 1))
     if t == "bool":
-        ch = g.weighted([(2, "leaf"), (5, "logic"), (3, "cmp"), (1, "not"), (1, "contains")])
+        ch = g.weighted([(2, "leaf"), (5, "logic"), (3, "cmp"), (1, "not"), (1, "contains"), (3 if c.state else 0, "stateful-logic")])
+        if ch == "stateful-logic":
+            # a bare read of boolean state on the LEFT of && / ||, and on the right a call that rewrites that state (directly, or
+            # somewhere inside a deeper tree)
+            g.label("stateful-logic")
+            c.reads += 1
+            c.mutators += 1
+            c.leaves += 2
+            left = g.choice([V("bv"), ("index", V("bl"), I(0)), ("field", V("pb"), "f"), ("index", V("bl"), I(0)), ("field", V("pb"), "f")])
+            mb = ("call", V("MB"), [c.key(), ("lit", "bool", g.chance(50)), ("lit", "bool", g.chance(50))])
+            right = mb if g.chance(50) else ("paren", ("bin", g.choice(["&&", "||"]), gen(c, "bool", depth - 1, nest + 1), mb))
+            return ("paren", ("bin", g.choice(["&&", "||"]), left, right))
         if ch == "leaf":
             return leaf(c, t, nest)
         if ch == "logic":
@@ -282,7 +309,7 @@ def cases(draw):
     else:
         stmts.append(("print", ("bin", "+", ("bin", "+", S("v="), gen(c, "int", depth, 1)), gen(c, "str", depth - 1, 1))))
     if c.state:
-        stmts += [("print", V("acc")), ("print", V("cell")), ("print", ("field", V("p"), "v")), ("print", ("field", V("cc"), "n")), ("print", ("field", V("vc"), "n"))]
+        stmts += [("print", V("bv")), ("print", V("bl")), ("print", ("field", V("pb"), "f")), ("print", V("acc")), ("print", V("cell")), ("print", ("field", V("p"), "v")), ("print", ("field", V("cc"), "n")), ("print", ("field", V("vc"), "n"))]
         if c.reads and c.mutators:
             g.label("state-read-and-mutate-in-one-expression")
     return {"stmts": stmts, "labels": sorted(g.labels) + ["form=" + form, "depth=%d" % depth],
